@@ -106,6 +106,7 @@ func (c *Collection) subdocWrite(key string, subdocKey string, cas CAS, value an
 		}
 
 		// Write full doc back to collection
+		verifPoint("subdoc.betweenReadWrite", c.bucket.name)
 		casOut, err = c.WriteCas(key, 0, casOut, fullDoc, 0)
 
 		if err != nil {
